@@ -422,6 +422,10 @@ func vFirstLine(s string) string {
 
 // vScenarioC18: pause for the stop/continue question, then continue.
 func vScenarioC18(rc *runCtx) {
+	if rc.param("pauseread", "0") == "1" {
+		vC18PauseRead(rc)
+		return
+	}
 	tp := rc.tape
 	cfg, o, before, _ := vStopXfer(rc)
 	cfg.protocol = []int{0, 3}[tp.Draw("c18.proto", 2)]
